@@ -287,6 +287,39 @@ Proof.
   exact (disjoint_mem _ _ _ Hd Hm Ht).
 Qed.
 
+Theorem ret_not_arg_sound i p : (let A := analyze p in valid p A && ret_not_arg i A) = true ->
+  forall st st', init_ok p st -> exec (body p) st st' ->
+  forall b, In b (rets st') -> org st' b <> LArg i.
+Proof.
+  cbv zeta. intros Hs st st' Hi He b Hb Ho.
+  apply andb_prop in Hs. destruct Hs as [Hv Hr].
+  destruct (valid_parts _ _ Hv) as [Hc HG].
+  pose proof (preserve st _ HG _ _ _ He Hc (sat_init _ _ _ Hv Hi)) as Hsat.
+  destruct (s_rets _ _ _ Hsat b Hb) as [_ Hm]. rewrite Ho in Hm.
+  unfold ret_not_arg in Hr. rewrite Hm in Hr. discriminate.
+Qed.
+
+(* a safe method: arguments other than self keep their version, the result is not cached and
+   is not the buffer of self *)
+Theorem safe_method_sound p : safe_method p = true ->
+  forall st st', init_ok p st -> exec (body p) st st' ->
+  (forall b, arg_buffer p st b -> (forall i, org st b = LArg i -> i <> 0) -> ver st' b = ver st b) /\
+  (forall b, In b (rets st') -> cached st' b = false /\ org st' b <> LArg 0).
+Proof.
+  unfold safe_method. intros Hs st st' Hi He.
+  apply andb_prop in Hs. destruct Hs as [Hs Hna]. apply andb_prop in Hs. destruct Hs as [Hs Hnc].
+  apply andb_prop in Hs. destruct Hs as [Hv Hw]. split.
+  - intros b Hb Hne.
+    assert (H1 : safe_args_except [0] p = true) by (unfold safe_args_except; rewrite Hv, Hw; reflexivity).
+    apply (safe_args_except_sound [0] p H1 st st' Hi He b Hb).
+    intros i Ho. simpl. destruct (Nat.eqb_spec i 0) as [-> | _]; [exfalso; exact (Hne 0 Ho eq_refl) | reflexivity].
+  - intros b Hb. split.
+    + assert (H2 : safe_ret p = true) by (unfold safe_ret; rewrite Hv, Hnc; reflexivity).
+      exact (safe_ret_sound p H2 st st' Hi He b Hb).
+    + assert (H3 : (let A := analyze p in valid p A && ret_not_arg 0 A) = true) by (cbv zeta; rewrite Hv, Hna; reflexivity).
+      exact (ret_not_arg_sound 0 p H3 st st' Hi He b Hb).
+Qed.
+
 (* safe p = true  =>  every execution leaves the version of every argument
    buffer unchanged and returns no buffer that a module-global cache holds. *)
 Theorem safe_sound p : safe p = true ->
